@@ -2,7 +2,7 @@ import Model.Bytes
 import Model.Xfr
 /-! driver ops of C13 (prefix `c13.`).
 
-`c13.run fix=<0|1> tr=<0|1> P=<0|1|2> o=<name|none> t=<rdtype> s=<serial|none> u=<0|1> N=<name;name;…> Z=<rr;rr;…|-> M=<msg>|<msg>|…`
+`c13.run fix=<0|1> tr=<0|1> P=<0|1|2> E=<eof|quiet|exc> o=<name|none> t=<rdtype> s=<serial|none> u=<0|1> N=<name;name;…> Z=<rr;rr;…|-> M=<msg>|<msg>|…`
   name  = comma separated hex labels (`-` = empty label), `@` = the empty name; lower-cased on input
   rr    = `<owner index into N>:<rdtype>:<ttl>:<serial>.<body>`
   rrset = `<owner index>:<rdtype>:<ttl>:<serial>.<body>,<serial>.<body>,…`
@@ -107,8 +107,9 @@ def traceLoop (fix : Bool) (s : Inbound) : List Msg → List String → List Str
 
 def runOp (toks : List String) : Option String :=
   match toks with
-  | [fx, tr, pm, o, t, s, u, ns, z, ms] => do
+  | [fx, tr, pm, en, o, t, s, u, ns, z, ms] => do
     let fx ← stripKey "fix" fx
+    let en ← stripKey "E" en
     let tr ← stripKey "tr" tr
     let pm ← stripKey "P" pm
     let o ← stripKey "o" o
@@ -125,14 +126,19 @@ def runOp (toks : List String) : Option String :=
     let origin ← if o = "none" then some none else (parseName o).map some
     let fix := fx = "1"
     let cfg : Config := ⟨origin, t, s, u = "1"⟩
-    let out := run fix cfg z msgs
+    -- E=eof: the stream ends with an exception (dns.query._inbound_xfr); E=quiet / E=exc: Inbound is driven
+    -- directly and the caller leaves the with-block normally / by an exception of its own
+    let dr := drive fix cfg z msgs (en = "exc")
+    let out : Outcome := if en = "eof" then run fix cfg z msgs else ⟨dr.err, dr.zone⟩
     let tr := if tr = "1" then (match Inbound.init origin z t s (u = "1") with
       | .error _ => []
       | .ok s0 => traceLoop fix s0 msgs []) else []
     let z0c := canonZone names z
     let z1c := canonZone names out.zone
     let zs := if z0c == z1c then "=" else showZone z1c
-    let r := match out.err with | none => "ok" | some e => "err:" ++ e.toString
+    let r := match out.err with
+      | none => if en = "eof" then "ok" else s!"left:{b01 dr.done}"
+      | some e => "err:" ++ e.toString
     some s!"T={"|".intercalate tr} R={r} Z={zs}"
   | _ => none
 
